@@ -62,6 +62,8 @@ def gen_spec(rng, max_groups=3, max_lrns=3, max_vals=2):
     # ((data1+data2).chunk().shuffle(n=2)...): pipelines of different data sets that went through the same Environments call
     if len(groups) >= 2 and rng.random() < .4:
         spec["combine"] = True
+        if any(g["kind"] == "lambda-sparse" for g in groups[:2]):   # (coba refuses a shift on sparse contexts: not a valid pipeline)
+            groups[0]["filters"] = [f for f in groups[0]["filters"] if f[0] != "scale"]
         if rng.random() < .35:
             # two sparse data sets with different feature names, densified by one call (a name->column table per environment)
             for g in groups[:2]:
